@@ -142,7 +142,7 @@ func (h *Hist) genTx() *histTx {
 		{"perp.open", 8}, {"perp.close", 6}, {"perp.closePositions", 4},
 		{"mc.claim", 3}, {"mc.externalIncentive", 1},
 		{"ts.spotCreate", 3}, {"ts.spotCancel", 2}, {"ts.perpCreate", 3}, {"ts.perpCancel", 2}, {"ts.execute", 4}, {"ts.spotUpdate", 1}, {"ts.perpUpdate", 1},
-		{"bank.donate", 3},
+		{"bank.donate", 3}, {"amm.feedExternalLiquidity", 2},
 	}
 	tot := 0
 	for _, x := range weights {
@@ -203,6 +203,19 @@ func (h *Hist) genTx() *histTx {
 			sh = have.AddRaw(1)
 		case 2:
 			sh = h.amt(1, 10_000_000_000_000) // dust: shares worth less than one base unit of some or every asset
+		case 3:
+			// exactly what can be withdrawn right now: committed minus what is still under its one-hour lock (a tie in the lock-up check)
+			locked := math.ZeroInt()
+			for _, ct := range c.CommittedTokens {
+				if ct.Denom == p.ShareDen {
+					for _, l := range ct.Lockups {
+						if l.UnlockTimestamp > uint64(ctx.BlockTime().Unix()) {
+							locked = locked.Add(l.Amount)
+						}
+					}
+				}
+			}
+			sh = have.Sub(locked)
 		default:
 			sh = have.Mul(h.amt(1, 1_000_000)).Quo(math.NewInt(1_000_000))
 		}
@@ -274,6 +287,18 @@ func (h *Hist) genTx() *histTx {
 			tx.req.Msgs = []sdk.Msg{&ammtypes.MsgSwapByDenom{Sender: u.Addr.String(), Amount: coin(din, a), MinAmount: coin(dout, math.ZeroInt()), DenomIn: din, DenomOut: dout, Recipient: recipient}}
 			tx.f = J{"in": []string{din, a.String()}, "out": dout, "recipient": recipient}
 		}
+	case "amm.feedExternalLiquidity":
+		// the price feeder reports the depth of external markets for an oracle pool's assets (changes the pool's external liquidity ratios only)
+		p := h.pool(func(q PoolRef) bool { return q.Oracle })
+		f := h.std.Feeder
+		var info []ammtypes.AssetAmountDepth
+		for _, d := range p.Denoms {
+			disp := map[string]string{"uusdc": "USDC", "uatom": "ATOM", "uelys": "ELYS"}[d]
+			info = append(info, ammtypes.AssetAmountDepth{Asset: disp, Amount: math.LegacyNewDecFromInt(h.amt(1_000_000, 50_000_000_000_000)), Depth: D([]string{"0.01", "0.02", "0.1", "0.5", "1"}[r.Intn(5)])})
+		}
+		tx.req.Signer = f
+		tx.req.Msgs = []sdk.Msg{&ammtypes.MsgFeedMultipleExternalLiquidity{Sender: f.Addr.String(), Liquidity: []ammtypes.ExternalLiquidity{{PoolId: p.Id, AmountDepthInfo: info}}}}
+		tx.f = J{"pool": p.Id}
 	case "ss.bond":
 		a := h.amt(1, 100_000_000_000)
 		tx.req.Msgs = []sdk.Msg{&sstypes.MsgBond{Creator: u.Addr.String(), Amount: a}}
@@ -357,8 +382,15 @@ func (h *Hist) genTx() *histTx {
 				signer = u // someone else tries
 			}
 			a := pos.LeveragedLpAmount.Mul(h.amt(1, 1_000_000)).Quo(math.NewInt(1_000_000))
-			if r.Intn(3) == 0 {
+			switch r.Intn(6) {
+			case 0, 1:
 				a = pos.LeveragedLpAmount
+			case 2:
+				// all but a few shares: what stays is far below 10^-18 of the position (ratios round to exactly 1)
+				a = pos.LeveragedLpAmount.SubRaw(int64(1 + r.Intn(10)))
+				if !a.IsPositive() {
+					a = pos.LeveragedLpAmount
+				}
 			}
 			tx.req.Signer = signer
 			tx.req.Msgs = []sdk.Msg{&lptypes.MsgClose{Creator: signer.Addr.String(), Id: pos.Id, LpAmount: a}}
